@@ -106,7 +106,10 @@ impl Report {
         self.assumptions.push(s.to_string());
     }
     pub fn cap(&mut self, s: impl Into<String>) {
-        self.caps_hit.push(s.into());
+        let s = s.into();
+        if !self.caps_hit.contains(&s) {
+            self.caps_hit.push(s);
+        }
     }
     pub fn violation(&mut self, v: Violation) {
         let c = self.violation_counts.entry(v.signature.clone()).or_insert(0);
